@@ -459,3 +459,44 @@ class DefiniteAssignment:
 
 def possibly_unbound(fn: ast.FunctionDef, implications=()) -> list[Finding]:
     return DefiniteAssignment(fn, implications).run()
+
+
+class Typestate(DefiniteAssignment):
+    """Two-state typestate over the same worlds: a statement classified 'dirty' clears the
+    marker, one classified 'clean' sets it; exits() returns the worlds at every normal exit
+    (return statements and falling off the end; raise is not a normal exit)."""
+
+    MARK = "$clean"
+
+    def __init__(self, fn, classify, implications=()):
+        super().__init__(fn, implications)
+        self.classify = classify
+        self.exit_worlds: list = []  # (node or None, world)
+        self.locals = set()  # no unbound-name reporting in this mode
+
+    def run(self):
+        w0 = World(frozenset(self.params) | {self.MARK}, frozenset())
+        out = self.block(self.fn.body, {w0})
+        for w in out:
+            self.exit_worlds.append((None, w))
+        return self.exit_worlds
+
+    def stmt(self, s, worlds):
+        if isinstance(s, ast.Return):
+            k = self.classify(s)
+            if k == "dirty":
+                worlds = {w.without({self.MARK}) for w in worlds}
+            elif k == "clean":
+                worlds = {World(w.defined | {self.MARK}, w.facts) for w in worlds}
+            for w in worlds:
+                self.exit_worlds.append((s, w))
+            return set()
+        simple = isinstance(s, (ast.Assign, ast.AugAssign, ast.AnnAssign, ast.Expr, ast.Delete))
+        out = super().stmt(s, worlds)
+        if simple:
+            k = self.classify(s)
+            if k == "dirty":
+                out = {w.without({self.MARK}) for w in out}
+            elif k == "clean":
+                out = {World(w.defined | {self.MARK}, w.facts) for w in out}
+        return out
